@@ -1433,15 +1433,22 @@ def _handle_note(e, position, part, ongoing, prev_note, doc_order, prev_beam=Non
         tie_types = set(tie.attrib["type"] for tie in ties)
 
         if "stop" in tie_types:
-            tie_prev = ongoing.get(tie_key, None)
+            # several ties of one pitch can be open (in different voices, which
+            # are not in time order in the document): continue the note that
+            # ends where this one starts, else the most recent one
+            open_ties = ongoing.get(tie_key, [])
+            tie_prev = next(
+                (o for o in open_ties if o.end.t == position),
+                open_ties[-1] if open_ties else None,
+            )
 
             if tie_prev:
                 note.tie_prev = tie_prev
                 tie_prev.tie_next = note
-                del ongoing[tie_key]
+                open_ties.remove(tie_prev)
 
         if "start" in tie_types:
-            ongoing[tie_key] = note
+            ongoing.setdefault(tie_key, []).append(note)
 
     notations = e.find("notations")
 
